@@ -225,6 +225,11 @@ impl ContextInner {
   pub(crate) fn event_bus(&self) -> Arc<EventBus> {
     self.event_bus.clone()
   }
+
+  #[cfg(rzmq_verif)]
+  pub(crate) fn verif_wait_group_count(&self) -> usize {
+    self.actor_wait_group.get_count()
+  }
 }
 
 /// A handle to an rzmq context, managing sockets and shared resources.
